@@ -236,6 +236,103 @@ fn run_v3(c: &V3Case) -> Outcome {
     o
 }
 
+/// Inline and cleartext carriers of a data signature: the digest handed to the key on these
+/// verification paths must be the RFC digest too.
+#[derive(Clone, Debug, Hash, Serialize, Deserialize)]
+pub struct InlineCase {
+    pub key: KeyKind,
+    pub hash: u8,
+    pub text: bool,
+    /// 0 prefixed (signature packet, literal), 1 one-pass (MessageBuilder), 2 cleartext framework
+    pub carrier: u8,
+    pub doc: Vec<u8>,
+}
+
+fn run_inline(c: &InlineCase) -> Outcome {
+    use pgp::composed::{CleartextSignedMessage, Message};
+    use std::io::Read;
+    let cert = common::cert(c.key, 1);
+    let primary = cert.primary_key.public_key();
+    let primary_body = primary.to_bytes().expect("ser");
+    let kind = if c.text { SigKind::DocText } else { SigKind::DocBinary };
+    let name = ["prefixed", "one-pass", "cleartext"][c.carrier as usize];
+    let ver = if c.key.is_v6() { 6 } else { 4 };
+    let what = format!("{name} {:?} hash {} text {} doc {} octets", c.key, c.hash, c.text, c.doc.len());
+    let mut o = Outcome::ok("digest-equal");
+    // (message bytes or cleartext object, signature body, the octets the RFC digest is over)
+    let rv = RecVerifier::new(primary);
+    let wrapped = WithSer(&rv, primary);
+    let (sig_body, signed_over): (Vec<u8>, Vec<u8>) = match c.carrier {
+        0 | 1 => {
+            let bytes = if c.carrier == 0 {
+                let spec = Spec { kind, key: c.key, hash: c.hash, object: c.doc.clone(), notation_len: 0, critical_time: false };
+                let a = match sigs::make(&spec) {
+                    Ok(a) => a,
+                    Err(e) => return Outcome::bad("C11:sign-error", format!("{what}: {e}")),
+                };
+                let mut lit = vec![if c.text { b'u' } else { b'b' }, 0, 0, 0, 0, 0];
+                lit.extend_from_slice(&c.doc);
+                [crate::reference::frame::frame_min(2, &a.sig_body), crate::reference::frame::frame_min(11, &lit)].concat()
+            } else {
+                // a utf8 literal must already be in CR LF form (the builder refuses anything else)
+                if c.text && (std::str::from_utf8(&c.doc).is_err() || canon(&c.doc) != c.doc) {
+                    return Outcome::trivial("not-a-utf8-literal");
+                }
+                let cfg = crate::common::msg::MsgCfg { signers: vec![(c.key, c.hash)], text: c.text, ..Default::default() };
+                match crate::common::msg::build_vec(&cfg, &c.doc, 3) {
+                    Ok(b) => b,
+                    Err(e) => return Outcome::bad("C11:sign-error", format!("{what}: {e}")),
+                }
+            };
+            let Ok(ps) = codec::split_packets(&bytes) else { return Outcome::bad("C11:reference-error", format!("{what}: message does not split")) };
+            let Some(sig_body) = ps.iter().find(|p| p.0 == 2).map(|p| p.2.clone()) else { return Outcome::bad("C11:reference-error", format!("{what}: no signature packet")) };
+            let mut m = match Message::from_bytes(&bytes[..]) {
+                Ok(m) => m,
+                Err(e) => return Outcome::bad(format!("C11:verify:{name}:own-message-rejected"), format!("{what}: {e}")),
+            };
+            let mut sink = Vec::new();
+            if let Err(e) = m.read_to_end(&mut sink) {
+                return Outcome::bad(format!("C11:verify:{name}:own-message-rejected"), format!("{what}: read: {e}"));
+            }
+            if let Err(e) = m.verify(&wrapped) {
+                o.push(format!("C11:verify:{name}:v{ver}:own-signature-rejected"), format!("{what}: {e}"));
+            }
+            (sig_body, c.doc.clone())
+        }
+        _ => {
+            let Ok(text) = String::from_utf8(c.doc.clone()) else { return Outcome::trivial("not utf-8") };
+            let csf = match CleartextSignedMessage::sign(crate::engine::rng(5), &text, &cert.primary_key, &pgp::types::Password::empty()) {
+                Ok(m) => m,
+                Err(e) => return Outcome::bad("C11:sign-error", format!("{what}: {e}")),
+            };
+            let Some(sig) = csf.signatures().first().cloned() else { return Outcome::bad("C11:reference-error", format!("{what}: no signature")) };
+            if let Err(e) = csf.verify(&wrapped) {
+                o.push(format!("C11:verify:{name}:v{ver}:own-signature-rejected"), format!("{what}: {e}"));
+            }
+            // RFC 9580 7.2: trailing spaces and tabs removed from every line, line endings CR LF
+            (sig.to_bytes().expect("ser"), crate::reference::canon::csf_signed_form(text.as_bytes()))
+        }
+    };
+    let kind_for_ref = if c.carrier == 2 { SigKind::DocText } else { kind };
+    match (rv.last(), sigs::reference_digest(&sig_body, kind_for_ref, &signed_over, &primary_body, &primary_body, &[])) {
+        (Some(seen), Ok(want)) => {
+            if seen != want {
+                o.push(
+                    format!("C11:verify:{name}:v{ver}:digest-differs-from-rfc"),
+                    format!("{what}: verified digest {} != RFC digest {}", hex::encode(&seen), hex::encode(&want)),
+                );
+            }
+        }
+        (None, _) => {
+            if o.viol.is_empty() {
+                o.push(format!("C11:verify:{name}:v{ver}:key-never-asked"), what.clone());
+            }
+        }
+        (_, Err(e)) => o.push("C11:reference-error", format!("{what}: {e}")),
+    }
+    o
+}
+
 pub fn check(ctx: &Ctx) {
     let quick = ctx.tier == Tier::Quick;
     let keys: Vec<(KeyKind, Vec<u8>)> = vec![
@@ -375,6 +472,40 @@ pub fn check(ctx: &Ctx) {
         v3.into_par_iter(),
         run_v3,
     );
+    let mut ic = Vec::new();
+    let inline_docs: Vec<Vec<u8>> = vec![
+        vec![],
+        b"a".to_vec(),
+        b"line one\nline two\r\nthree\r".to_vec(),
+        b"trailing blank \ntab\t\n- dash\nform feed\x0c\nnbsp\xc2\xa0\nvt\x0b \nwide\xe3\x80\x80\n".to_vec(),
+        b"last line without end \x0c".to_vec(),
+        b"crlf only\r\nlines \r\nend\r\n".to_vec(),
+        [&vec![b't'; 511][..], b"\r\nx"].concat(),
+    ];
+    for (key, hashes) in &keys {
+        for &hash in hashes {
+            for text in [false, true] {
+                for carrier in 0..3u8 {
+                    if carrier == 2 && !text {
+                        continue;
+                    }
+                    for doc in &inline_docs {
+                        if *key == KeyKind::Rsa2048V4 && quick && doc.len() > 1 {
+                            continue;
+                        }
+                        ic.push(InlineCase { key: *key, hash, text, carrier, doc: doc.clone() });
+                    }
+                }
+            }
+        }
+    }
+    ctx.run_space(
+        "inline_and_cleartext_verification",
+        true,
+        "data signatures carried inline: prefixed form (signature packet + literal, assembled by the harness around a library-made signature), one-pass form (MessageBuilder) and the cleartext framework, x 8 signer keys (v4/v6) x hashes x binary/text x documents (empty, mixed line endings, lines ending in blank / TAB / FF / VT / NBSP / U+3000, text at the 512 window): Message::verify / CleartextSignedMessage::verify with a recording key - the digest handed to the key = RFC 9580 5.2.4 digest (salt, canonical text or the 7.2 signed form, fields, trailer) computed from the wire bytes",
+        ic.into_par_iter(),
+        run_inline,
+    );
     ctx.assume("key packet bodies are taken from the library's serialisation (their correctness is C05/C13); the claim here is framing, prefixes, length widths, salt, hashed fields and trailer");
     let _ = codec::sha1;
 }
@@ -383,6 +514,7 @@ pub fn replay(space: &str, case: &Value) -> Option<Outcome> {
     match space {
         "created_and_verified" => replay_as(case, run_created),
         "v3_signatures_verify_only" => replay_as(case, run_v3),
+        "inline_and_cleartext_verification" => replay_as(case, run_inline),
         _ => None,
     }
 }
